@@ -91,7 +91,7 @@ fn main() {
     let mut bad: Vec<String> = vec![];
     if !(s.len() <= l.len() && s[..] == l[..s.len()] && s.is_empty() == l.is_empty()) || v != (l.is_empty(), l.len()) {
         // a sequential disagreement is the operation-level simulator's business; report it all the same
-        bad.push(format!("sequential reference already disagrees: full={} stop={} validate={:?}", l.len(), s.len(), v));
+        bad.push(format!("I2 (already without any overlap) the entry points disagree on this subject: full={} stop={} validate={:?}", l.len(), s.len(), v));
     }
     let (l, p2) = (Arc::new(l), p.clone());
     let mut hs = vec![];
